@@ -10,6 +10,9 @@
 (*   accepts : set of scheme names the callback accepts                    *)
 (*   pparams, oparams : sequences of [in, name, kind]  (path-item / operation level) *)
 (*   values  : sequence of [in, name, text]  what the request carries      *)
+(*   method  : the HTTP method under which the path item holds the operation ("get", "put", "post",  *)
+(*             "delete", "options", "head", "patch", "trace"); the contract does not look at it: a    *)
+(*             declared requestBody is part of the verdict under every method                         *)
 (*   bdecl   : "none" | "optional" | "required"   what the operation declares as requestBody          *)
 (*   body    : "none" | "empty" | "pass" | "fail" | "otherct" | "badjson"  what the request carries     *)
 (*   multi, exclBody, exclQuery, authReadsBody : BOOLEAN                   *)
@@ -77,7 +80,7 @@ Accepts(c) == FailingParts(c) = {}
 (*   via "back"    : through the first route again, its original content restored                    *)
 (* View(c, s) is the case as that validation sees it.                                                *)
 View(c, s) == [c EXCEPT !.pparams = s.pparams, !.oparams = s.oparams, !.opSec = s.opSec, !.docSec = s.docSec, !.bdecl = s.bdecl]
-StepOf(c, via) == [via |-> via, pparams |-> c.pparams, oparams |-> c.oparams, opSec |-> c.opSec, docSec |-> c.docSec, bdecl |-> c.bdecl]
+StepOf(c, via) == [via |-> via, method |-> c.method, pparams |-> c.pparams, oparams |-> c.oparams, opSec |-> c.opSec, docSec |-> c.docSec, bdecl |-> c.bdecl]
 (* what a step may change.  Cur is the content of the first route when the step is taken (edits stay until   *)
 (* "back" restores the original): a shared Operation value carries its parameters, security and body as they    *)
 (* are now; a sibling operation lives under the path item's current parameters and the current document         *)
@@ -87,9 +90,9 @@ CurAt(c, i) ==
    ELSE LET s == c.hist[i - 1] IN
         IF s.via = "edit" THEN s ELSE IF s.via = "back" THEN StepOf(c, "cur") ELSE CurAt(c, i - 1)
 StepWellFormed(c, cur, s) ==
-   CASE s.via = "share"   -> s.oparams = cur.oparams /\ s.opSec = cur.opSec /\ s.docSec = cur.docSec /\ s.bdecl = cur.bdecl
-     [] s.via = "sibling" -> s.pparams = cur.pparams /\ s.docSec = cur.docSec
-     [] s.via = "edit"    -> TRUE
+   CASE s.via = "share"   -> s.method = c.method /\ s.oparams = cur.oparams /\ s.opSec = cur.opSec /\ s.docSec = cur.docSec /\ s.bdecl = cur.bdecl
+     [] s.via = "sibling" -> s.method # c.method /\ s.pparams = cur.pparams /\ s.docSec = cur.docSec
+     [] s.via = "edit"    -> s.method = c.method
      [] s.via = "back"    -> s = StepOf(c, "back")
      [] OTHER -> FALSE
 
